@@ -27,6 +27,9 @@ colon = slice(None, None, None)
 
 def _sanitize_index_element(ind):
     """Sanitize a one-element index."""
+    if isinstance(ind, (bool, np.bool_)):
+        # NumPy treats a boolean scalar as a mask over a new axis, not as 0 / 1
+        raise NotImplementedError(f"Boolean scalars are not supported as an index (got {ind!r})")
     if isinstance(ind, Number):
         ind2 = int(ind)
         if ind2 != ind:
